@@ -530,7 +530,8 @@ class Text(JupyterMixin):
     def __rich_measure__(self, console: "Console", max_width: int) -> Measurement:
         text = self.plain
         if not text.strip():
-            return Measurement(cell_len(text), cell_len(text))
+            blank_width = max((cell_len(line) for line in text.splitlines()), default=0)
+            return Measurement(blank_width, blank_width)
         max_text_width = max(cell_len(line) for line in text.splitlines())
         min_text_width = max(cell_len(word) for word in text.split())
         return Measurement(min_text_width, max_text_width)
